@@ -214,6 +214,7 @@ def is_none_term(t):
 
 
 STR_LOWER = z3.Function('str_lower', z3.StringSort(), z3.StringSort())
+PY_IS = z3.Function('py_is', Obj, Obj, z3.BoolSort())        # object identity: uninterpreted, only known to imply ==
 
 
 def eq(a, b):
@@ -521,6 +522,10 @@ class Engine:
                 continue
             if isinstance(op, (ast.Is, ast.IsNot)):
                 r = eq(a, b)
+                if a.kind in ('obj', 'tuple', 'list', 'set', 'dict') and b.kind in ('obj', 'tuple', 'list', 'set', 'dict'):
+                    # identity between two objects: implies equality, is not implied by it (None / small constants are
+                    # handled by eq above; `x is None` never reaches here because NONE has kind 'none')
+                    r = z3.And(r, z3.Or(z3.And(is_none_term(to_obj(a)), is_none_term(to_obj(b))), PY_IS(to_obj(a), to_obj(b))))
                 out.append(z3.Not(r) if isinstance(op, ast.IsNot) else r)
                 continue
             if isinstance(op, ast.Eq):
